@@ -299,6 +299,12 @@ static void h_exec(const plan_t *p)
         }
         case H_SWAP: {
             static struct helem *tmp[MAXN]; int n, sc, j, u = 1 - h;
+            if (o->a[1] % 16 == 5) {
+                TRY(cstl_heap_swap(&hp[h], &hp[h]));
+                if (g_aborted) VIOL(h, "abort", "swap aborted");
+                PROBE("self_swap"); EVT("swap_self", h, 0, 0);
+                break;
+            }
             if (nh < 2) { EVT("skip", 0, 0, 0); break; }
             TRY(cstl_heap_swap(&hp[h], &hp[u]));
             if (g_aborted) VIOL(h, "abort", "swap aborted");
